@@ -343,8 +343,7 @@ Section Engine.
       { eapply flow_fold_update; [apply keeps_set_dup|..|exact A]; try reflexivity. intros id Hid. exact Hid. }
       destruct A' as [F1 F2 F3 F4 F5 F6]. constructor; try assumption.
       - cbn. constructor.
-      - intros Hm. discriminate.
-      - intros Hoff. destruct (halted_noff Hoff). }
+      - intros Hm. discriminate. }
     apply andthen_closedQ; [right; apply fail_all_closedQ; eapply closedQ_eq; [..|exact H10]; reflexivity|].
     intros s12 H12. right. cbn. eapply closedQ_eq; [..|exact H12]; reflexivity.
   Qed.
@@ -354,14 +353,263 @@ Section Engine.
   Proof.
     unfold FlowInv.flow_inv. intros Hf. unfold Model.net_closed.
     destruct (pstate_eqb (s_st s) Disconnected) eqn:E.
-    - right. unfold Model.net_closed_raw. rewrite E. cbn. eapply flow_halted. exact Hf.
+    - right. unfold Model.net_closed_raw. rewrite E. cbn. eapply flow_halted. eapply flow_eq; [..|exact Hf]; reflexivity.
     - destruct (net_closed_raw_spec _ s Hf) as [Hp|[(A & B & C) D]]; [destruct (s_st s); try discriminate; congruence| |].
-      + left. destruct (r_out (net_closed_raw s)) as [|[]|]; try discriminate; reflexivity.
+      + left. destruct (r_out (net_closed_raw s)) as [|k|] eqn:Eo; cbn in Hp; try discriminate Hp. rewrite Eo. reflexivity.
       + right. assert (Hd : flow_m Disconnected (r_s (net_closed_raw s))) by (eapply flow_offline_intro; [exact A|exact C|exact D|left; reflexivity]).
-        destruct (r_out (net_closed_raw s)) as [|k|] eqn:Eo; cbn [r_s r_out Model.halt_on_error].
-        * rewrite B. exact Hd.
-        * destruct k; cbn [r_s r_out Model.halt_on_error]; try (cbn; eapply flow_halted; eapply flow_eq; [..|exact Hd]; reflexivity).
+        destruct (r_out (net_closed_raw s)) as [u|k|] eqn:Eo.
+        * cbn [r_s r_out]. rewrite Eo. cbn [Model.halt_on_error]. rewrite B. exact Hd.
+        * destruct k; cbn [r_s r_out]; rewrite ?Eo; cbn [Model.halt_on_error];
+            try (cbn; eapply flow_halted; eapply flow_eq; [..|exact Hd]; reflexivity).
           rewrite B. exact Hd.
-        * cbn. eapply flow_halted. eapply flow_eq; [..|exact Hd]; reflexivity.
+        * cbn [r_s r_out]. rewrite Eo. cbn. eapply flow_halted. eapply flow_eq; [..|exact Hd]; reflexivity.
   Qed.
+
+  (* ---- reset ---- *)
+  Lemma flow_reset s : flow_inv (r_s (reset s)) \/ is_panic (r_out (reset s)) = true.
+  Proof.
+    unfold Model.reset.
+    set (s0 := if pstate_eqb (s_st s) Disconnected then s else s <| s_st := Halted |>).
+    assert (H0 : s_st s0 = Disconnected \/ s_st s0 = Halted).
+    { unfold s0. destruct (s_st s) eqn:E; cbn; rewrite ?E; auto. }
+    match goal with |- context [fold_left ?f ?l ?a] => set (fv := f); set (lv := l) end.
+    assert (Hfold : forall l acc, (s_st (r_s acc) = Disconnected \/ s_st (r_s acc) = Halted) ->
+               s_st (r_s (fold_left fv l acc)) = Disconnected \/ s_st (r_s (fold_left fv l acc)) = Halted).
+    { induction l as [|id r IH]; intros acc Ha; cbn [fold_left]; [exact Ha|]. apply IH. unfold fv.
+      destruct (is_panic (r_out acc)); [exact Ha|]. cbn [r_s].
+      destruct (fail_op_st (r_s acc) id EClientClosed) as [E|E]; rewrite E; auto. }
+    specialize (Hfold lv (pure s0) H0). set (r := fold_left fv lv (pure s0)) in *.
+    destruct (is_panic (r_out r)) eqn:Ep; [right; exact Ep|]. left. unfold FlowInv.flow_inv. cbn.
+    constructor; cbn.
+    - split; cbn; constructor.
+    - constructor.
+    - constructor.
+    - intros id H. discriminate.
+    - intros Hm. destruct Hfold as [E|E]; rewrite E in Hm; discriminate.
+    - intros _ id [H|[]]. discriminate.
+  Qed.
+
+  (* ---- CONNACK: session handling, reasoned about in the offline mode ---- *)
+  Lemma flow_nc m (s s' : state) : m <> Connected ->
+    keys (s_ops s') = keys (s_ops s) ->
+    (forall id o', lookup id (s_ops s') = Some o' -> exists o, lookup id (s_ops s) = Some o /\ qpub (op_packet o') = qpub (op_packet o)) ->
+    s_next_id s' = s_next_id s -> s_ppub s' = s_ppub s -> inc (keys (s_alloc s')) ->
+    s_cur s' = s_cur s -> (forall id, In id (s_hq s') -> In id (s_hq s)) -> flow_m m s -> flow_m m s'.
+  Proof.
+    intros Hm Hk Hrel Hn Hp Ha Hc Hq [H1 H2 H3 H4 H5 H6]. constructor.
+    - unfold ids_ok in *. cbn [fst snd] in *. rewrite Hk, Hn. exact H1.
+    - rewrite Hp. exact H2.
+    - exact Ha.
+    - intros k. rewrite Hc, Hn. apply H4.
+    - intros E. contradiction.
+    - intros Hoff k Hk'. rewrite Hc in Hk'. assert (Hk2 : s_cur s = Some k \/ In k (s_hq s)) by (destruct Hk'; [left|right; apply Hq]; assumption).
+      destruct (H6 Hoff k Hk2) as [Hlt Hcl]. rewrite Hn. split; [exact Hlt|]. intros o' Hl.
+      destruct (Hrel _ _ Hl) as (o & Hlo & ->). apply Hcl. exact Hlo.
+  Qed.
+
+  Lemma flow_nc_same m (s s' : state) : m <> Connected ->
+    s_ops s' = s_ops s -> s_next_id s' = s_next_id s -> s_ppub s' = s_ppub s -> inc (keys (s_alloc s')) ->
+    s_cur s' = s_cur s -> (forall id, In id (s_hq s') -> In id (s_hq s)) -> flow_m m s -> flow_m m s'.
+  Proof.
+    intros Hm Ho. apply flow_nc; [exact Hm|rewrite Ho; reflexivity|]. intros id o' Hl. rewrite Ho in Hl. exists o'. auto.
+  Qed.
+
+  Lemma flow_unbind m s id : m <> Connected -> flow_m m s -> flow_m m (unbind s id).
+  Proof.
+    intros Hm H. unfold Model.unbind. destruct (lookup id (s_ops s)) as [o|] eqn:El; [|exact H].
+    match goal with |- flow_m m (?s1 <| s_ops := update id ?f (s_ops ?s1') |>) => assert (H1 : flow_m m s1) end.
+    { destruct (op_pid o) as [pid|]; [|exact H]. destruct (with_pid 0 (op_packet o)) as [p'| |] eqn:Ew; [|exact H..].
+      assert (Hq : qpub p' = qpub (op_packet o)) by (destruct (op_packet o); cbn in Ew; inversion Ew; reflexivity).
+      eapply flow_nc; [exact Hm| | | | | | | |exact H]; cbn; try reflexivity.
+      - apply keys_update.
+      - intros k x Hl. destruct (lookup_update_rel _ _ _ _ _ Hl) as (x0 & Hl0 & [->| ->]); [exists x0; auto|].
+        destruct (N.eq_dec k id) as [->|Hne]; [|rewrite (lookup_update_neq _ _ _ _ Hne) in Hl; exists x0; split; [exact Hl0|]; congruence].
+        exists o. split; [exact El|]. replace x0 with o by congruence. exact Hq.
+      - apply inc_remove. apply H.
+      - intros k Hk. exact Hk. }
+    eapply flow_nc; [exact Hm| | | | | | | |exact H1]; cbn; try reflexivity.
+    - apply keys_update.
+    - intros k x Hl. destruct (lookup_update_rel _ _ _ _ _ Hl) as (x0 & Hl0 & [->| ->]); exists x0; auto.
+    - apply H1.
+    - intros k Hk. exact Hk.
+  Qed.
+
+  Lemma flow_fold_unbind m ids : forall s, m <> Connected -> flow_m m s -> flow_m m (fold_left unbind ids s).
+  Proof. induction ids as [|id r IH]; intros s Hm H; cbn [fold_left]; [exact H|]. apply IH; [exact Hm|]. apply flow_unbind; assumption. Qed.
+
+  Lemma unbind_ppub s id : s_ppub (unbind s id) = s_ppub s /\ s_settings (unbind s id) = s_settings s /\ s_st (unbind s id) = s_st s.
+  Proof. unfold Model.unbind. repeat dm; cbn; auto. Qed.
+
+  Lemma fold_unbind_ppub ids : forall s, s_ppub (fold_left unbind ids s) = s_ppub s /\
+    s_settings (fold_left unbind ids s) = s_settings s /\ s_st (fold_left unbind ids s) = s_st s.
+  Proof.
+    induction ids as [|id r IH]; intros s; cbn [fold_left]; [auto|]. destruct (IH (unbind s id)) as (A & B & C).
+    destruct (unbind_ppub s id) as (A' & B' & C'). repeat split; congruence.
+  Qed.
+
+  Lemma flow_connected s st : flow_m PendingConnack s -> s_ppub s = [] -> s_settings s = Some st -> flow_m Connected s.
+  Proof.
+    intros [H1 H2 H3 H4 H5 H6] Hp Hs. constructor; try assumption.
+    - intros _. exists st. split; [exact Hs|]. rewrite Hp. unfold FlowInv.extra.
+      destruct (s_cur s) as [c|] eqn:Ec; [|cbn; slia]. destruct (lookup c (s_ops s)) as [o|] eqn:El; [|cbn; slia].
+      destruct (H6 (or_intror eq_refl) c (or_introl eq_refl)) as [_ Hcl]. rewrite (Hcl o El). cbn. slia.
+    - intros [E|E]; discriminate.
+  Qed.
+
+  Lemma fail_all_st ids : forall s e, s_st (r_s (fail_all s ids e)) = s_st s \/ s_st (r_s (fail_all s ids e)) = Halted.
+  Proof.
+    induction ids as [|id r IH]; intros s e; cbn [Model.fail_all]; [left; reflexivity|].
+    destruct (is_panic _); [apply fail_op_st|].
+    assert (H : s_st (r_s (fail_all (r_s (fail_op s id e)) r e)) = s_st s \/ s_st (r_s (fail_all (r_s (fail_op s id e)) r e)) = Halted).
+    { destruct (IH (r_s (fail_op s id e)) e) as [E|E]; [|right; exact E]. rewrite E. apply fail_op_st. }
+    destruct (is_panic _); cbn [r_s]; exact H.
+  Qed.
+
+  Lemma fail_all_settings ids s e : s_settings (r_s (fail_all s ids e)) = s_settings s.
+  Proof. pose proof (fail_all_fields enc dec ores ires cfg ids s e) as Hq. unfold queue_fields in Hq. inversion Hq. reflexivity. Qed.
+
+  (* result: in the offline mode the invariant is kept; the protocol state stays as it was (or Halted)
+     and the settings are kept; when the checks pass the pending-publish table is empty *)
+  Lemma flow_apply_session s sp : flow_m PendingConnack s ->
+    let r := apply_session s sp in
+    is_panic (r_out r) = true \/
+    (flow_m PendingConnack (r_s r) /\ s_ppub (r_s r) = [] /\ s_settings (r_s r) = s_settings s /\
+     (s_st (r_s r) = s_st s \/ s_st (r_s r) = Halted)).
+  Proof.
+    intros Hf. cbv zeta. unfold Model.apply_session.
+    assert (Hnc : PendingConnack <> Connected) by discriminate.
+    match goal with |- context [if is_panic (r_out ?r1) then _ else _] => set (r1v := r1) end.
+    assert (H1 : flow_m PendingConnack (r_s r1v) /\ s_settings (r_s r1v) = s_settings s /\ (s_st (r_s r1v) = s_st s \/ s_st (r_s r1v) = Halted)).
+    { unfold r1v. destruct sp; [cbn; auto|]. destruct (partition_policy s (s_rq s)) as [kept rejected].
+      match goal with |- context [fail_all ?s1 rejected _] => set (s1v := s1) end.
+      assert (Hs1 : flow_m PendingConnack s1v).
+      { eapply flow_fold_update; [apply (keeps_set_dup false)|..|exact Hf]; try reflexivity. intros id Hid. exact Hid. }
+      pose proof (flow_fail_all enc dec ores ires cfg PendingConnack rejected s1v EOfflineQueuePolicyFailed Hs1) as Hfa.
+      pose proof (fail_all_st rejected s1v EOfflineQueuePolicyFailed) as Hst.
+      pose proof (fail_all_settings rejected s1v EOfflineQueuePolicyFailed) as Hse.
+      destruct (is_panic _); [auto|]. cbn [r_s]. split; [|cbn; auto].
+      eapply flow_nc_same; [exact Hnc|..|exact Hfa]; cbn; try reflexivity; [constructor|intros id Hid; exact Hid]. }
+    destruct (is_panic (r_out r1v)) eqn:Ep; [left; exact Ep|].
+    destruct H1 as (H1 & Hse1 & Hst1).
+    match goal with |- context [Model.mkRes ?s3 (r_done r1v) (r_out r1v)] => set (s3v := s3) end.
+    destruct (fold_unbind_ppub (s_uq (r_s r1v)) (r_s r1v)) as (Hp2 & Hse2 & Hst2).
+    assert (H3 : flow_m PendingConnack s3v).
+    { unfold s3v. eapply flow_eq; [..|apply (flow_fold_unbind PendingConnack (s_uq (r_s r1v)) (r_s r1v) Hnc H1)]; reflexivity. }
+    assert (Hrest : s_settings s3v = s_settings s /\ (s_st s3v = s_st s \/ s_st s3v = Halted)).
+    { unfold s3v. cbn. rewrite Hse2, Hst2. auto. }
+    destruct (s_hq s3v); [|left; reflexivity]. destruct (s_ppub s3v) eqn:Epp; [|left; reflexivity].
+    destruct (s_pnon s3v); [|left; reflexivity]. destruct (s_tmo s3v); [|left; reflexivity]. destruct (s_pwco s3v); [|left; reflexivity].
+    right. cbn [r_s]. tauto.
+  Qed.
+
+
+  (* ---- packet handlers ---- *)
+  Lemma flow_inv_of m (s' : state) : flow_m m s' -> (s_st s' = m \/ s_st s' = Halted) -> flow_inv s'.
+  Proof. unfold FlowInv.flow_inv. intros H [->| ->]; [exact H|eapply flow_halted; exact H]. Qed.
+
+  Lemma flow_set_halted m (s : state) : flow_m m s -> flow_inv (s <| s_st := Halted |>).
+  Proof. intros H. unfold FlowInv.flow_inv. cbn. eapply flow_halted. eapply flow_eq; [..|exact H]; reflexivity. Qed.
+
+  Lemma succeed_op_st s id resp : s_st (r_s (succeed_op s id resp)) = s_st s \/ s_st (r_s (succeed_op s id resp)) = Halted.
+  Proof.
+    unfold Model.succeed_op. destruct (lookup id (s_ops s)) as [o|]; [|left; reflexivity].
+    destruct (release s id o) as [s1| |] eqn:Er; [|left; reflexivity..].
+    destruct (release_core _ _ _ _ _ _ _ _ _ Er) as (_ & _ & _ & _ & _ & _ & _ & Hst).
+    pose proof (ping_extension_core enc dec ores ires s1 o) as Hp. cbv zeta in Hp. destruct Hp as (_ & _ & _ & _ & _ & _ & _ & Hst').
+    pose proof (disconnect_completion_core enc dec ores ires (ping_extension s1 o) o) as Hd. cbv zeta in Hd.
+    destruct (disconnect_completion (ping_extension s1 o) o) as [s2 r]. cbn [fst] in Hd. destruct Hd as (_ & _ & _ & _ & _ & _ & _ & Hs2).
+    assert (H : s_st s2 = s_st s \/ s_st s2 = Halted) by (destruct Hs2 as [E|E]; [left; congruence|right; exact E]).
+    repeat dm; cbn [r_s]; exact H.
+  Qed.
+
+  Lemma flow_succeed_inv s id resp : flow_inv s -> flow_inv (r_s (succeed_op s id resp)).
+  Proof. intros H. eapply flow_inv_of; [apply flow_succeed_op; exact H|apply succeed_op_st]. Qed.
+
+  Lemma flow_handle_connack s now c : flow_inv s ->
+    is_panic (h_out (handle_connack s now c)) = true \/ flow_inv (h_s (handle_connack s now c)).
+  Proof.
+    intros H. unfold Model.handle_connack. destruct (pstate_eqb (s_st s) PendingConnack) eqn:E; cbn [negb]; [|right; exact H].
+    assert (Hst : s_st s = PendingConnack) by (destruct (s_st s); try discriminate; reflexivity).
+    dm; [right; exact H|]. destruct (v_in None (Connack c)); [|right; exact H|left; reflexivity].
+    unfold FlowInv.flow_inv in H. rewrite Hst in H.
+    match goal with |- context [apply_session ?s2 ?sp] => set (s2v := s2) end.
+    assert (H2 : flow_m PendingConnack s2v).
+    { unfold s2v. destruct (cf_drain_one cfg); (eapply flow_nc_same; [discriminate|..|exact H]; cbn; try reflexivity; [apply H|intros id Hid; exact Hid]). }
+    assert (Hs2 : s_settings s2v = Some (build_settings s c) /\ s_st s2v = Connected).
+    { unfold s2v. destruct (cf_drain_one cfg); cbn; auto. }
+    destruct Hs2 as [Hse Hsc].
+    destruct (flow_apply_session s2v (ca_session_present c) H2) as [Hp|(Hf & Hpp & Hs & Hst3)]; cbv zeta in *.
+    - left. destruct (r_out (apply_session s2v (ca_session_present c))); try discriminate. reflexivity.
+    - right. assert (Hfi : flow_inv (r_s (apply_session s2v (ca_session_present c)))).
+      { rewrite Hsc in Hst3. eapply flow_inv_of; [|exact Hst3]. eapply flow_connected; [exact Hf|exact Hpp|]. rewrite Hs. exact Hse. }
+      destruct (r_out (apply_session s2v (ca_session_present c))); cbn [h_s]; exact Hfi.
+  Qed.
+
+  Lemma pre_connack_noff s : pre_connack s = false -> ~ offline (s_st s).
+  Proof. unfold Model.pre_connack. intros H [E|E]; rewrite E in H; discriminate. Qed.
+
+  Lemma flow_handle_packet s now p : flow_inv s ->
+    is_panic (h_out (handle_packet s now p)) = true \/ flow_inv (h_s (handle_packet s now p)).
+  Proof.
+    intros H. destruct p; cbn [Model.handle_packet]; try (right; exact H).
+    - apply flow_handle_connack. exact H.
+    - (* PUBLISH *) right. unfold Model.handle_publish. dm; [exact H|]. dm; [exact H|].
+      unfold Model.create_operation. dm; cbn [fst snd h_s].
+      + unfold FlowInv.flow_inv. cbn. eapply flow_create with (m := s_st s) (o := new_op (Puback (default_ack (pub_pid p))) false None); [..|exact H]; cbn; try reflexivity.
+        * left; reflexivity. * left; reflexivity.
+        * intros id Hid. apply in_app_or in Hid. destruct Hid as [Hid|[<-|[]]]; [left; exact Hid|right; auto].
+      + destruct (mem (pub_pid p) (s_q2in s)); unfold FlowInv.flow_inv; cbn;
+          (eapply flow_create with (m := s_st s) (o := new_op (Pubrec (default_ack (pub_pid p))) false None); [..|exact H]; cbn; try reflexivity;
+           [left; reflexivity|left; reflexivity|intros id Hid; apply in_app_or in Hid; destruct Hid as [Hid|[<-|[]]]; [left; exact Hid|right; auto]]).
+    - (* PUBACK *) right. unfold Model.handle_puback. repeat dm; try exact H. apply flow_succeed_inv. exact H.
+    - (* PUBREC *) right. unfold Model.handle_pubrec. destruct (pre_connack s) eqn:Epc; [exact H|].
+      destruct (lookup (ack_pid p) (s_ppub s)) as [id|]; [|exact H]. destruct (lookup id (s_ops s)) as [o|]; [|exact H].
+      destruct (op_packet o); try exact H. dm; [|exact H]. dm; [apply flow_succeed_inv; exact H|].
+      set (fv := fun o0 : op => o0 <| op_pubrel := Some (Pubrel (default_ack (ack_pid p))) |>).
+      assert (H1 : flow_m (s_st s) (s <| s_ops := update id fv (s_ops s) |>)).
+      { eapply flow_update with (f := fv) (id := id); [..|exact H]; try reflexivity; [intros x; split; reflexivity|intros k Hk; exact Hk]. }
+      unfold FlowInv.flow_inv. cbn [h_s]. cbn.
+      eapply flow_noff with (s := s <| s_ops := update id fv (s_ops s) |>); [apply pre_connack_noff; exact Epc|..|exact H1]; try reflexivity.
+      left. reflexivity.
+    - (* PUBREL *) right. unfold Model.handle_pubrel. dm; [exact H|]. unfold Model.create_operation. cbn [fst snd h_s].
+      unfold FlowInv.flow_inv. cbn. eapply flow_create with (m := s_st s) (o := new_op (Pubcomp (default_ack (ack_pid p))) false None); [..|exact H]; cbn; try reflexivity.
+      + left; reflexivity. + left; reflexivity.
+      + intros id Hid. apply in_app_or in Hid. destruct Hid as [Hid|[<-|[]]]; [left; exact Hid|right; auto].
+    - (* PUBCOMP *) right. unfold Model.handle_pubcomp. repeat dm; try exact H. apply flow_succeed_inv. exact H.
+    - (* SUBACK *) right. unfold Model.handle_suback. repeat dm; try exact H. apply flow_succeed_inv. exact H.
+    - (* UNSUBACK *) right. unfold Model.handle_unsuback. repeat dm; try exact H; apply flow_succeed_inv; exact H.
+    - (* PINGRESP *) right. unfold Model.handle_pingresp. repeat dm; try exact H; (eapply flow_inv_of; [eapply flow_eq; [..|exact H]; reflexivity|left; reflexivity]).
+    - (* DISCONNECT *) right. unfold Model.handle_disconnect. repeat dm; exact H.
+  Qed.
+
+  Lemma flow_handle_packets ps : forall s now dn ev, flow_inv s ->
+    is_panic (h_out (handle_packets s now ps dn ev)) = true \/ flow_inv (h_s (handle_packets s now ps dn ev)).
+  Proof.
+    induction ps as [|p rest IH]; intros s now dn ev H; cbn [Model.handle_packets]; [right; exact H|].
+    match goal with |- context [match ?res with Ok _ => _ | Err _ => _ | Panic _ => _ end] =>
+      assert (Hres : forall s1 p1, res = Ok (s1, p1) -> flow_inv s1); [|destruct res as [[s1 p1]| |] eqn:Eres] end.
+    { intros s1 p1. unfold obind. repeat dm; intros E; inversion E; subst; try exact H.
+      eapply flow_inv_of; [eapply flow_eq; [..|exact H]; reflexivity|left; reflexivity]. }
+    2: right; exact H. 2: left; reflexivity.
+    specialize (Hres s1 p1 eq_refl).
+    destruct (v_in (s_settings s1) p1); [|right; apply (flow_set_halted (s_st s1)); exact Hres|left; reflexivity].
+    destruct (flow_handle_packet s1 now p1 Hres) as [Hp|Hf].
+    - left. destruct (h_out (handle_packet s1 now p1)); try discriminate. reflexivity.
+    - destruct (h_out (handle_packet s1 now p1)); [apply IH; exact Hf|right; apply (flow_set_halted (s_st (h_s (handle_packet s1 now p1)))); exact Hf|left; reflexivity].
+  Qed.
+
+  Lemma flow_net_data s now data : flow_inv s ->
+    is_panic (h_out (net_data s now data)) = true \/ flow_inv (halt_on_error (h_s (net_data s now data)) (h_out (net_data s now data))).
+  Proof.
+    intros H. unfold Model.net_data.
+    dm; [right; cbn; apply (flow_set_halted (s_st s)); exact H|].
+    dm; [right; cbn; apply (flow_set_halted (s_st s)); eapply flow_eq; [..|exact H]; reflexivity|].
+    destruct (dec_feed _ _ _ _) as [[d' ps] r].
+    assert (H1 : flow_inv (s <| s_dec := d' |>)) by (eapply flow_inv_of; [eapply flow_eq; [..|exact H]; reflexivity|left; reflexivity]).
+    destruct r; [|right; cbn; apply (flow_set_halted (s_st s)); eapply flow_eq; [..|exact H]; reflexivity|left; reflexivity].
+    destruct (flow_handle_packets ps (s <| s_dec := d' |>) now [] [] H1) as [Hp|Hf]; [left; exact Hp|right].
+    destruct (h_out (handle_packets (s <| s_dec := d' |>) now ps [] [])); cbn [Model.halt_on_error]; [exact Hf| |];
+      apply (flow_set_halted (s_st (h_s (handle_packets (s <| s_dec := d' |>) now ps [] [])))); exact Hf.
+  Qed.
+
 End Engine.
